@@ -130,6 +130,15 @@ Consistency ==
           InBandUnorm(PD8c(op, sc, sa, dc, da), 255,
                       IvClamp01(RPD(op, IvFromUnorm(sa, 255), IvFromUnorm(sc, 255), IvFromUnorm(da, 255), IvFromUnorm(dc, 255))), 1)
 
+(* where a division factor is said to equal a plain factor (EquivKind8), the real-valued factor agrees *)
+EquivLemma ==
+    (kind = "algebra" /\ mode = "none" /\ op = 0 /\ sc = 0) =>
+       \A da \in B8 : \A k \in {"sa/da", "da/sa", "isa/da", "ida/sa", "1-sa/da", "1-da/sa", "1-ida/sa", "1-isa/da"} :
+          LET e == EquivKind8(k, sa, da)
+              SA == IvFromUnorm(sa, 255)  DA == IvFromUnorm(da, 255)
+              rk == RFactor(k, SA, DA)
+          IN  (e # "frac") => LET re == RFactor(e, SA, DA) IN rk[1] <= re[2] + 2 /\ re[1] <= rk[2] + 2 /\ IvWidth(rk) <= 300
+
 (* ---- the real-valued equations: sanity on premultiplied boundary values ---- *)
 RealSanity ==
     (kind = "algebra" /\ mode = "none" /\ sc <= sa /\ op <= 3) =>
